@@ -36,6 +36,7 @@ import (
 )
 
 var workdir string
+var wantTmpl bool
 var dump *bool
 
 // state is what was observed after one batch.
@@ -44,8 +45,9 @@ type state struct {
 	findings []c07.Finding
 	applyErr error
 	scanErr  error
-	cmds     int  // socket mode: commands the controller sent to haproxy
-	reloaded bool // socket mode: a reload was asked for
+	tmpl     string // the observed model state as a Coq term (Model/TmplRefs.v tstate)
+	cmds     int    // socket mode: commands the controller sent to haproxy
+	reloaded bool   // socket mode: a reload was asked for
 }
 
 var runSeq int
@@ -91,6 +93,9 @@ func run(o c07.Opt, h [][]pipeline.Change, upto int) ([]state, error) {
 		}
 		st.applyErr = p.Apply(b)
 		st.cfg, st.scanErr = c07.Scan(p.Dir(), p.Prefix())
+		if wantTmpl {
+			st.tmpl = c07.TmplState(p.Config())
+		}
 		if st.scanErr == nil {
 			st.findings = c07.Check(st.cfg)
 			// cross-check with the independent parser of lib/cfgnorm: whatever it calls a
@@ -289,6 +294,9 @@ func features(c *c07.Cfg, res *hx.Result) (nontrivial bool) {
 			res.Count("state_with_backend_cert_files")
 		}
 	}
+	if len(c.Resolvers) > 0 {
+		res.Count("state_with_resolvers_section")
+	}
 	if len(c.AuthBinds) > 0 {
 		res.Count(fmt.Sprintf("state_with_auth_proxy_binds=%d", len(c.AuthBinds)))
 	}
@@ -333,6 +341,7 @@ func main() {
 		writeCorpus()
 		return
 	}
+	wantTmpl = !o.Search
 	workdir = filepath.Join(o.Out, "scratch")
 	os.MkdirAll(workdir, 0o755)
 	defer os.RemoveAll(workdir)
@@ -422,7 +431,7 @@ func main() {
 		res.Count("histories_" + strings.SplitN(sc.origin, ":", 2)[0])
 		res.Count(fmt.Sprintf("history_batches=%d", len(sc.h)))
 		strict := strictHost(sc.h)
-		var coqStates []string
+		var coqStates, tmplStates []string
 		for bi, st := range states {
 			res.OracleChecks++
 			if st.applyErr != nil {
@@ -454,6 +463,7 @@ func main() {
 			}
 			if !o.Search {
 				coqStates = append(coqStates, hx.Tuple(st.cfg.Coq(), hx.Bool(len(st.findings) == 0)))
+				tmplStates = append(tmplStates, c07.TmplCase(st.tmpl, st.cfg, len(st.findings) == 0))
 			}
 			// findings: shrink the first history showing each cause
 			seenHere := map[string]bool{}
@@ -506,6 +516,10 @@ func main() {
 			}, input)
 			res.Count("coq_checked_configurations_total_states")
 			res.Distribution["coq_checked_configurations_total_states"] += len(cs) - 1
+			ts := tmplStates
+			cw.Add(func(id int) string {
+				return fmt.Sprintf("(CTmpl %s %s)", hx.N(id), hx.List(ts))
+			}, input)
 		}
 	}
 
